@@ -508,6 +508,9 @@ pub async fn run_case(case: Vec<String>) -> String {
                             }
                             Ok(Response::Finished) => {
                                 lg.lock().push((next_seq(), now_ms(start), "finished".into()));
+                                // the application keeps its Initiator for a while: what an early dialog is told must come from the
+                                // initiator's own event, not from the channel closing when the initiator is dropped
+                                tokio::time::sleep(Duration::from_secs(20)).await;
                                 break;
                             }
                             Err(e) => {
